@@ -8,7 +8,7 @@ RO_BOUND = {
     "S_U16": 4, "S_BOOL": 3, "S_BOOL3": 5, "S_SB": 8, "S_SB2": 14, "S_SS1": 10, "S_SE1": 10, "S_CE": 3,
     "S_SE16": 6, "S_PS": 9, "S_PE": 10, "V_U8": 8, "V_U8L32": 10, "V_U16": 10, "V_BOOL": 8, "V_SB": 14,
     "V_A3": 12, "V_P": 10, "STR8": 5, "STR16": 6, "STRP": 6, "X_U8": 6, "X_B": 6, "X_U16": 8, "X_V": 6,
-    "X_V16": 8, "X_S": 5, "X_P": 8, "U_S1": 12, "U_S2": 14, "U_S3": 6, "U_S4": 7, "U_S5": 12, "U_PS": 10,
+    "X_V16": 8, "X_S": 5, "X_P": 8, "U_S1": 12, "U_S2": 14, "U_S3": 6, "U_S4": 7, "U_S5": 12, "U_S6": 12, "X_V8L16": 8, "U_PS": 10,
     "U_E1": 16, "U_E2": 8, "U_E3": 12, "U_E4": 14, "U_PE": 10,
 }
 SHAPE_DOC = {
@@ -21,21 +21,22 @@ SHAPE_DOC = {
     "X_U8": "FlexVec<u8,u8>", "X_B": "FlexVec<Bool,u8>", "X_U16": "FlexVec<u16,u16>", "X_V": "FlexVec<FlatVec<u8,u8>,u8>",
     "X_V16": "FlexVec<FlatVec<u8,u16>,u16>", "X_S": "FlexVec<FlatString<u8>,u8>", "X_P": "FlexVec<le::U16,le::U16>",
     "U_S1": "unsized struct{u8,u16,FlatVec<u8,u8>}", "U_S2": "unsized struct{u32,FlatVec<u8,u8>}", "U_S3": "unsized struct{Bool,FlatString<u8>}",
-    "U_S4": "unsized struct{u8,FlexVec<u8,u8>}", "U_S5": "unsized struct{u16,FlatVec<u16,u8>}", "U_PS": "portable unsized struct{le::U16,FlatVec<le::U16,le::U16>}",
+    "U_S4": "unsized struct{u8,FlexVec<u8,u8>}", "U_S6": "unsized struct{u8,[u8;2],u16,FlatVec<u8,u8>} (field with size > alignment at an odd offset)",
+    "X_V8L16": "FlexVec<FlatVec<u8,u8>,u16> (offset type more aligned than the items)", "U_S5": "unsized struct{u16,FlatVec<u16,u8>}", "U_PS": "portable unsized struct{le::U16,FlatVec<le::U16,le::U16>}",
     "U_E1": "unsized enum{A,B(u8,u16),C{u32,FlatVec<u8,u16>}} (the test suite's)", "U_E2": "unsized enum{A,B(Bool),C(FlatVec<u8,u8>)}",
     "U_E3": "unsized enum(tag u16){A,B(Bool,u16),C{u8,FlatVec<u8,u8>}}", "U_E4": "unsized enum{A,S(unsized struct)}",
     "U_PE": "portable unsized enum{A,B(le::U16),C(portable unsized struct)}",
 }
 # shapes whose harnesses cost <= ~150 s: quick tier
-RO_QUICK = SIZED + ["V_U8", "V_U8L32", "V_U16", "V_BOOL", "V_P", "V_A3", "STR8", "U_S1", "U_S2", "U_S5", "U_PS",
+RO_QUICK = SIZED + ["V_U8", "V_U8L32", "V_U16", "V_BOOL", "V_P", "V_A3", "STR8", "U_S1", "U_S2", "U_S5", "U_S6", "U_PS",
                     "U_E1", "U_E2", "U_E3", "U_E4", "U_PE", "X_U8", "X_U16"]
-RO_THOROUGH = ["V_SB", "STR16", "STRP", "X_B", "X_V", "X_P", "U_S3", "U_S4", "X_V16", "X_S"]
+RO_THOROUGH = ["V_SB", "STR16", "STRP", "X_B", "X_V", "X_P", "U_S3", "U_S4", "X_V16", "X_S", "X_V8L16"]
 STRINGY = {"STR8", "STR16", "STRP", "U_S3", "X_S"}
 CONSTRAINED = {"S_BOOL", "S_BOOL3", "S_SB", "S_SB2", "S_SE1", "S_CE", "S_SE16", "S_PE", "V_BOOL", "V_SB", "STR8", "STR16",
                "STRP", "X_B", "X_U16", "X_V16", "X_S", "U_S3", "U_E1", "U_E2", "U_E3", "U_E4", "U_PE"}
 SLOW = {"X_U8": 900, "X_U16": 1100, "X_B": 1100, "X_V": 2700, "X_P": 1200, "U_S4": 900, "STR16": 900, "STRP": 900,
-        "U_S3": 900, "V_SB": 900, "X_V16": 3000, "X_S": 3000, "STR8": 600, "V_A3": 600}
-BIGMEM = {"X_V": 14, "X_V16": 16, "X_S": 16, "V_SB": 12, "X_P": 10, "X_U16": 10, "X_B": 10}
+        "U_S3": 900, "V_SB": 900, "X_V16": 3000, "X_S": 3000, "X_V8L16": 3000, "STR8": 600, "V_A3": 600}
+BIGMEM = {"X_V": 14, "X_V16": 16, "X_S": 16, "X_V8L16": 16, "V_SB": 12, "X_P": 10, "X_U16": 10, "X_B": 10}
 
 
 def ro(family, what, shapes_quick=None, shapes_thorough=None, only=None):
@@ -88,19 +89,20 @@ prop("C06", "framing contract",
 prop("C19", "content errors are reported at the byte that is wrong",
      "For every byte string up to the bound: if validate reports InvalidData/InvalidEnumTag the position is in the reference decoder's set of offending bytes; a complete-but-malformed image is never reported as InsufficientSize.",
      OUT_RO + ["images with more than one kind of defect: any offending byte is accepted"],
-     ro("errpos", "error position names an offending byte (Bool, tag, UTF-8) at any nesting depth", only=CONSTRAINED))
+     ro("errpos", "error position names an offending byte (Bool, tag, UTF-8) at any nesting depth", only=CONSTRAINED,
+        shapes_quick=RO_QUICK + ["X_B"], shapes_thorough=[x for x in RO_THOROUGH if x != "X_B"]))
 
 # ---------------------------------------------------------------- constructing families
 EM_COST = {"S_U16": 60, "S_SB": 60, "S_SS1": 60, "S_SE1": 90, "S_CE": 60, "S_SE16": 60, "S_PS": 60, "S_PE": 90,
            "V_U8": 300, "V_U8L32": 400, "V_U16": 400, "V_SB": 900, "V_A3": 600, "V_P": 400, "STR8": 600, "STR16": 900,
-           "STRP": 900, "X_U8": 900, "X_U16": 1500, "X_V": 2400, "U_S1": 600, "U_S2": 600, "U_S3": 900, "U_S4": 1200,
+           "STRP": 900, "X_U8": 900, "X_U16": 1500, "X_V": 2400, "U_S1": 600, "U_S2": 600, "U_S6": 900, "U_S3": 900, "U_S4": 1200,
            "U_PS": 600, "U_E1": 900, "U_E2": 400, "U_E3": 600, "U_E4": 800, "U_PE": 800}
 EM_QUICK = ["S_U16", "S_SB", "S_SS1", "S_SE1", "S_CE", "S_SE16", "S_PS", "S_PE", "V_U8", "V_U8L32", "V_U16", "V_A3", "V_P",
-            "STR8", "U_S1", "U_S2", "U_PS", "U_E1", "U_E2", "U_E3", "U_E4", "U_PE", "X_U8"]
+            "STR8", "U_S1", "U_S2", "U_S6", "U_PS", "U_E1", "U_E2", "U_E3", "U_E4", "U_PE", "X_U8"]
 EM_THOROUGH = ["V_SB", "STR16", "STRP", "X_U16", "X_V", "U_S3", "U_S4"]
 EM_BOUND = {"S_U16": 5, "S_SB": 9, "S_SS1": 12, "S_SE1": 12, "S_CE": 3, "S_SE16": 7, "S_PS": 9, "S_PE": 10, "V_U8": 6,
             "V_U8L32": 12, "V_U16": 10, "V_SB": 16, "V_A3": 11, "V_P": 10, "STR8": 6, "STR16": 8, "STRP": 7, "X_U8": 8,
-            "X_U16": 14, "X_V": 10, "U_S1": 11, "U_S2": 13, "U_S3": 7, "U_S4": 9, "U_PS": 12, "U_E1": 20, "U_E2": 7,
+            "X_U16": 14, "X_V": 10, "U_S1": 11, "U_S2": 13, "U_S6": 13, "U_S3": 7, "U_S4": 9, "U_PS": 12, "U_E1": 20, "U_E2": 7,
             "U_E3": 10, "U_E4": 13, "U_PE": 13}
 
 
@@ -173,3 +175,128 @@ prop("C16", "portable scalars",
      + [H("port::f32_arith::le_addsub", 300, 6, "every pair of f32 bit patterns", "Add/Sub/AddAssign bit-exact"),
         H("port::f32_arith::be_addsub", 300, 6, "every pair of f32 bit patterns", "Add/Sub bit-exact"),
         H("port::bool_::repr", 120, 4, "all 256 bytes, all bool pairs", "Bool validation, representation, operators")])
+
+# ---------------------------------------------------------------- IO (one step from an arbitrary state)
+IO_B = {"V_U8": ("FlatVec<u8,u8>", 6, 3, 1200), "U_E2": ("unsized enum{A,B(Bool),C(FlatVec<u8,u8>)}", 6, 3, 1200),
+        "SS2": ("sized struct{u16,u8} (align 2, padding)", 6, 2, 600), "U_S1": ("unsized struct{u8,u16,FlatVec<u8,u8>} (align 2, padded)", 8, 4, 3600),
+        "X_U8": ("FlexVec<u8,u8>", 5, 2, 5400), "V_U8L32": ("FlatVec<u8,u32> (align 4)", 8, 4, 3600)}
+IO_A = {"V_U8": ("FlatVec<u8,u8>", 5, 2, 3, 1800), "U_E2": ("unsized enum{A,B(Bool),C(FlatVec<u8,u8>)}", 5, 2, 3, 1800),
+        "SS2": ("sized struct{u16,u8}", 6, 2, 3, 1200), "U_S1": ("unsized struct{u8,u16,FlatVec<u8,u8>}", 8, 2, 2, 3600)}
+IO_QUICK = ["V_U8", "SS2"]
+IO_ASSUME = ["the receiver's pre-state is constructed through the `verif` hooks of flatty-io (window, contents); the window invariant (start multiple of ALIGN, start <= end <= capacity, empty window == 0..0) is assumed for the pre-state and re-asserted on the post-state",
+             "pipes are solver-driven models: every read/write chunk size, failure and Pending placement is symbolic (harness/src/pipes.rs); io::Error values are mem::forget-ed (their drop glue is not the subject)",
+             "sequences of recv/send calls are covered by induction over calls: each step starts from an arbitrary state satisfying the invariant"]
+
+
+def io_b(fam, what, quick=IO_QUICK, tiers_all=None):
+    out = []
+    for m, (doc, cap, r, t) in IO_B.items():
+        tcap = t if fam.startswith("recv") else max(300, t // 6)
+        out.append(H("io_blk::%s::%s" % (m, fam), tcap, 14, "buffer capacity %d, arbitrary window and contents, %d further stream bytes, every chunking; message type %s" % (cap, r, doc),
+                     what, tier="quick" if m in quick else "thorough"))
+    return out
+
+
+def io_a(fam, what, quick=IO_QUICK):
+    out = []
+    for m, (doc, cap, r, pb, t) in IO_A.items():
+        tcap = t if fam.startswith("recv") else max(300, t // 4)
+        out.append(H("io_async::%s::%s" % (m, fam), tcap, 14, "buffer capacity %d, %d further stream bytes, every chunking, up to %d Pending results anywhere (poll_read/poll_write/poll_flush); message type %s" % (cap, r, pb, doc),
+                     what, tier="quick" if m in quick else "thorough"))
+    return out
+
+
+OUT_IO = ["buffer capacities above 8 bytes and more than 4 further stream bytes per step", "real OS threads / executors: interleavings are reduced to chunkings and Pending scripts on each side",
+          "waker registration (the library registers none itself), cancellation of a future mid-way", "message types beyond the listed ones"]
+
+prop("C07", "blocking IO delivers the sent sequence under every chunking",
+     "One recv() from an arbitrary receiver state in front of an arbitrary well-formed stream delivered in every chunking, and one send() of an arbitrary valid image under every write chunking, are compared with the reference framing of the stream: delivered message == first message, consumed == its size(), buffered ++ unread == rest of the stream in order, Closed only at end of stream, no panic. Induction over calls gives whole sequences.",
+     OUT_IO,
+     io_b("recv", "recv step: delivers the first message of the stream, consumes exactly it, keeps the rest in order; Closed only at end of stream")
+     + io_b("send", "send step: exactly size() bytes of the image reach the sink in order; buffer released"),
+     IO_ASSUME)
+
+prop("C08", "async IO delivers the same sequence under every chunking and poll schedule",
+     "The real recv()/send() futures are polled by hand over pipes that answer Pending or Ready(k) symbolically; same post-conditions as C07 plus: the future is Pending exactly when a pipe call of that poll was Pending (no spurious Pending, completes as soon as the pipe made progress), the sink always holds a prefix of the image (no byte twice or skipped across Pending), and a send completes only after poll_flush returned Ready with all bytes handed over.",
+     OUT_IO + ["more than 3 Pending results per step"],
+     io_a("recv", "async recv step under every Pending placement") + io_a("send", "async send step: prefix-only sink, flush before completion, no spurious Pending"),
+     IO_ASSUME)
+
+prop("C09", "IO faults surface as errors",
+     "The step harnesses with faults enabled: each read may fail with one of four io::ErrorKinds, each write may fail or accept 0 bytes. Asserted: no pipe call follows a failed one within a send/recv (bounded calls, no retry loop), the sink holds a proper prefix of the image, poisoned <=> a partial message is in the stream, a failed read leaves buffered ++ unread == stream (nothing lost or duplicated, so a retried recv is again an instance of the step).",
+     OUT_IO + ["io::ErrorKind values other than Other, Interrupted, WouldBlock, BrokenPipe"],
+     io_b("recv_faults", "recv step with failing reads") + io_b("send_faults", "send step with failing / zero-length writes")
+     + io_a("recv_faults", "async recv step with failing reads", quick=["V_U8"]) + io_a("send_faults", "async send step with failing / zero-length writes", quick=["V_U8"]),
+     IO_ASSUME)
+
+prop("C10", "receiver fed arbitrary bytes",
+     "The recv step harness without any assumption on the stream: arbitrary buffer contents and arbitrary further bytes in every chunking. Asserted: terminates with message / Parse / Read(OutOfMemory) / Closed, no panic, bounded reads; a delivered message is the reference decoding of the bytes received so far and its size() <= bytes received; window stays inside the buffer; complete-but-malformed content => Parse.",
+     OUT_IO,
+     io_b("recv_hostile", "recv step on arbitrary bytes", quick=["V_U8", "U_E2"]) + io_a("recv_hostile", "async recv step on arbitrary bytes", quick=["U_E2"]),
+     IO_ASSUME)
+
+# ---------------------------------------------------------------- histories by one step
+VSTEP = {"V_U8_st": ("FlatVec<u8,u8>", 7, 900), "V_U16_st": ("FlatVec<u16,u8>", 9, 1200), "V_U8L32_st": ("FlatVec<u8,u32>", 10, 1200),
+         "V_A3_st": ("FlatVec<[u8;3],u16>", 10, 1800), "V_P_st": ("FlatVec<le::U16,le::U16>", 8, 1200)}
+XSTEP = {"X_U8_st": ("FlexVec<u8,u8>", 6, 2400), "X_U16_st": ("FlexVec<u16,u16>", 8, 3600), "X_P_st": ("FlexVec<le::U16,le::U16>", 8, 3600)}
+STEP_ASSUME = ["a history is covered by one step from an arbitrary valid image (every validating image is a reachable state and every reachable state must validate, which each step re-asserts); the composition over steps is a paper argument"]
+
+
+def vsteps(what, quick=("V_U8_st", "V_U16_st", "V_P_st")):
+    return [H("step::%s::vec_step" % m, t, 12, "every valid image <= %d bytes x every operation (push, pop, push_slice<=3, truncate, clear, remove, swap_remove, resize, index write, extend_until_full) with arbitrary arguments; %s" % (n, doc),
+              what, tier="quick" if m in quick else "thorough") for m, (doc, n, t) in VSTEP.items()]
+
+
+def xsteps(what, quick=("X_U8_st",)):
+    return [H("step::%s::flex_step" % m, t, 14, "every valid image <= %d bytes x every operation (push, push_default, pop, truncate, clear, edit item i) with arbitrary arguments; %s" % (n, doc),
+              what, tier="quick" if m in quick else "thorough") for m, (doc, n, t) in XSTEP.items()]
+
+
+prop("C11", "FlatVec/FlatString behave as capacity-bounded Vec/String",
+     "From every valid image up to the bound, one arbitrary operation with arbitrary arguments is compared with a fixed-capacity Vec/String model: len, capacity (unchanged), contents, remaining, size(), PartialEq, validity and re-mapping of the bytes.",
+     ["images longer than the bound; slices/strings longer than 3 items per call", "element types beyond u8, u16, [u8;3], le::U16; length types beyond u8, u16, u32, le::U16",
+      "operations that panic by contract (remove/swap_remove out of range, resize beyond capacity) are excluded by assumption"],
+     vsteps("FlatVec step vs Vec model")
+     + [H("step::string::str_step", 1800, 12, "every valid FlatString<u8> image <= 6 bytes x push(char: every scalar value) / push_str(<=3 bytes) / clear", "FlatString step vs String model"),
+        H("step::lmax::vec_lmax", 1200, 10, "300-byte buffer, L = u8, every length byte", "capacity clamped to the length type's maximum; push at the maximum refused", tier="thorough")],
+     STEP_ASSUME)
+
+prop("C12", "FlexVec behaves as a sequence of items",
+     "From every valid image up to the bound, one arbitrary operation (push, push_default, pop, truncate(n), clear, edit of item i through iter_mut) is compared with a sequence model: len, is_empty, items in order, size(), validity and re-mapping; pop removes exactly the last, truncate keeps min(n,len), editing one item leaves the others.",
+     ["images longer than the bound (at most 6 items)", "item types beyond u8, u16, le::U16 (unsized items are covered read-only by C02/C05 and constructing by C03)"],
+     xsteps("FlexVec step vs sequence model")
+     + [H("step::X_V_st::flexv_step", 3600, 16, "every valid image <= 7 bytes x push(FlatVec of 0..2 items) / pop / truncate / clear / push into item i; FlexVec<FlatVec<u8,u8>,u8>", "FlexVec of unsized items vs sequence-of-sequences model", tier="thorough")],
+     STEP_ASSUME)
+
+prop("C13", "a rejected container operation leaves the container as it was",
+     "The step harnesses on their Err branches: when push / push_slice / push_str / FlexVec::push is refused, the observable state (length, items, size(), validity, reference decoding) equals the pre-state. All ways of not fitting inside the bound arise because pre-state and arguments are arbitrary (exactly full, one byte short, slot fits but item does not).",
+     ["'offset not representable in the length type' needs an item of >= 254 bytes: outside the byte bound"],
+     vsteps("refused push/push_slice leave the FlatVec unchanged", quick=("V_U8_st", "V_U16_st"))
+     + [H("step::string::str_step", 1800, 12, "every valid FlatString<u8> image <= 6 bytes", "refused push/push_str leave the FlatString unchanged")]
+     + xsteps("refused FlexVec::push leaves the FlexVec unchanged")
+     + [H("step::X_V_st::flexv_step", 3600, 16, "every valid image <= 7 bytes; FlexVec<FlatVec<u8,u8>,u8>", "push refused by the item's emplacer (slot fits, item does not) leaves the FlexVec unchanged", tier="thorough")],
+     STEP_ASSUME)
+
+
+# ---------------------------------------------------------------- layout
+LAYS = ["S_U16", "S_BOOL", "S_BOOL3", "S_SB", "S_SB2", "S_SS1", "S_SS2", "S_SE1", "S_CE", "S_SE16", "S_PS", "S_PE"]
+LAY = ["V_U8", "V_U8L32", "V_U16", "V_SB", "V_A3", "V_P", "STR8", "STR16", "X_U8", "X_U16", "X_V8L16", "U_S1", "U_S2", "U_S5", "U_S6",
+       "U_PS", "U_E1", "U_E2", "U_E3", "U_E4", "U_PE"]
+LAY_SLOW = {"V_SB", "X_V8L16", "STR16", "X_U16"}
+prop("C04", "computed layout equals the compiler's layout and the C rule",
+     "ALIGN, MIN_SIZE and SIZE of every catalogue shape are compared with literals obtained by applying the C layout rule by hand; for every slice length up to the bound the mapped value's align_of_val is ALIGN, size_of_val <= slice length (never claims more bytes), as_bytes == size_of_val. Every field / payload / element offset is pinned by the accept family: content read through the accessors equals content decoded at the reference offsets for all byte strings; the emplace family pins the offsets used by the *Init emplacers the same way.",
+     ["type definitions outside the catalogue (the quantifier over all field-type lists is covered by 41 concrete shapes, not symbolically: the MIR->SMT engine of the design was not built)",
+      "slices longer than the per-shape bound", "alignments above 4"],
+     [H("lay::%s_l::layout_sized" % sh, 120, 4, SHAPE_DOC.get(sh, sh), "SIZE == size_of, ALIGN == align_of == reference (constants evaluated by rustc; recorded, not solver-decided)") for sh in LAYS]
+     + [H("lay::%s_l::layout" % sh, 900 if sh in LAY_SLOW else 400, 8, "every slice length <= %d and content; %s" % (RO_BOUND[sh], SHAPE_DOC[sh]),
+          "ALIGN/MIN_SIZE == reference; align_of_val == ALIGN; size_of_val <= n", tier="thorough" if sh in LAY_SLOW else "quick") for sh in LAY]
+     + ro("accept", "offsets of fields / enum payloads / container data: accessor content == content at the reference offsets", shapes_quick=["U_S1", "U_S6", "U_E1", "U_E3", "S_SE1", "V_A3"], shapes_thorough=["U_S2", "U_E4", "X_U16"])
+     + em("emplace", "offsets used by the generated initialisers == reference offsets", quick=["U_S6", "U_E1"], thorough=["U_S1", "U_E3"]))
+
+PORT = {"S_PS_p": "S_PS", "S_PE_p": "S_PE", "V_P_p": "V_P", "STRP_p": "STRP", "U_PS_p": "U_PS", "U_PE_p": "U_PE"}
+prop("C17", "portable composites have a padding-free, address-independent image",
+     "For each portable shape every value is emplaced at every address offset 0..3; construction must succeed as soon as the bytes suffice (alignment 1), size() is the sum of the parts, and the image decodes, at prefix-sum offsets with explicit byte orders, to the specified content; it maps back at the same odd address.",
+     ["portable definitions outside the catalogue (6 shapes: struct, enum, FlatVec, FlatString, unsized struct, unsized enum)", "the negative compile check (a non-portable field is rejected by the compiler) is a compile result, not run here"],
+     [H("lay::%s::portable" % m, 900, 10, "every value, address offsets 0..3, arbitrary prior contents; " + SHAPE_DOC[sh], "built at any address; padding-free image == reference serialisation",
+        tier="quick" if m in ("S_PS_p", "S_PE_p", "V_P_p", "U_PS_p") else "thorough") for m, sh in PORT.items()]
+     + ro("accept", "from_bytes at any address for alignment-1 shapes == reference decoding", shapes_quick=["S_PS", "S_PE", "V_P", "U_PS", "U_PE"], shapes_thorough=["STRP", "X_P"]))
